@@ -23,11 +23,22 @@ def atoiNat (s : String) : Option Nat :=
     let n := s.foldl (fun a c => a * 10 + (c.toNat - 48)) 0
     if n < 2 ^ 63 then some n else none
 
+/-- largest arc `encoding/asn1` can read back (`math.MaxInt32`) -/
+def maxArc : Nat := 2 ^ 31 - 1
+
 /-- `cert.OidFromString`: the empty string is the empty OID; otherwise every dot-separated part must
-    be an `int`.  Parts with a sign are outside the configuration grammar (the schemas admit digits
+    be an `int` that `encoding/asn1` can read back (at most 2^31-1, and so must be the combined first
+    two arcs).  Parts with a sign are outside the configuration grammar (the schemas admit digits
     only) and are rejected by the model. -/
 def oidFromString (s : String) : Option Oid :=
-  if s.isEmpty then some [] else (s.splitOn ".").mapM atoiNat
+  if s.isEmpty then some [] else
+  match (s.splitOn ".").mapM atoiNat with
+  | none => none
+  | some arcs =>
+    if arcs.any (· > maxArc) then none
+    else match arcs with
+      | a :: b :: _ => if a ≤ 2 && a * 40 + b > maxArc then none else some arcs
+      | _ => some arcs
 
 /-! ### attribute short names -/
 
